@@ -47,8 +47,15 @@ class C03(Check):
     required_probes = {'thorough': ['heun_pair', 'cutoff_drop', 'rhs_fault', 'adaptive']}
 
     def strata(self, tier):
-        s = [('S-main', 6), ('S-heun', 3), ('S-adaptive', 3), ('S-fault', 1), ('S-nonmult', 1), ('S-onerow', 1)]
+        s = [('S-main', 6), ('S-heun', 3), ('S-adaptive', 3), ('S-fault', 1), ('S-nonmult', 1), ('S-onerow', 1),
+             ('S-torch', 1)]
         return s
+
+    def prepare_parent(self):
+        try:
+            import torch  # noqa: imported once in the parent; children are forked from it (no torch op runs here)
+        except Exception:
+            pass
 
     # ------------------------------------------------------------------------------------------------
     def generate(self, rng, stratum, tier):
@@ -61,7 +68,12 @@ class C03(Check):
         K = rng.randint(2, kmax)
         solver = 'euler'
         kw = {}
-        if stratum == 'S-heun':
+        if stratum == 'S-torch':
+            solver = rng.choice(['euler', 'scipy'])      # the torch backend's own solver implementations
+            if solver == 'scipy':
+                rtol = rng.choice([1e-6, 1e-8, 1e-10])
+                kw = {'method': rng.choice(['RK45', 'DOP853']), 'rtol': rtol, 'atol': rtol * 1e-2}
+        elif stratum == 'S-heun':
             solver = 'heun'
         elif stratum == 'S-adaptive':
             solver = 'scipy'
@@ -85,7 +97,7 @@ class C03(Check):
         if cut_kind == 'beyond' and rng.random() < 0.7:
             cutoff = 0.0
         cfg = {'dt': dt, 'm': m, 'K': K, 'T': T, 'dts': dts, 'cutoff': cutoff, 'solver': solver, 'solver_kw': kw,
-               'backend': 'default', 'vectorize': rng.random() < 0.5,
+               'backend': 'torch' if stratum == 'S-torch' else 'default', 'vectorize': rng.random() < 0.5,
                'precision': 'float64' if rng.random() < 0.8 else 'float32',
                'sampling_arg': True if m > 1 or rng.random() < 0.7 else False,
                'outputs': rng.choice(['explicit', 'wild']),
@@ -95,6 +107,8 @@ class C03(Check):
             cfg['precision'] = 'float64'
             if cfg['input']:
                 cfg['input']['kind'] = 'smooth'
+            if stratum == 'S-torch':
+                cfg['input'] = None     # the torch interp helper (nearest neighbour, reconnaissance R6) is C08's subject
         if stratum == 'S-fault':
             per = 2 if solver == 'heun' else 1
             cfg['fault_at'] = rng.randint(0, max(0, steps * per - 1))
